@@ -634,6 +634,7 @@ func c04GeneratedAtoms() []c04Atom {
 		c04GeneratedCache = append(c04GeneratedCache, c04ImportedTwinAtoms()...)
 		c04GeneratedCache = append(c04GeneratedCache, c04TwoUsersAtoms()...)
 		c04GeneratedCache = append(c04GeneratedCache, c04ConversionUsersAtoms()...)
+		c04GeneratedCache = append(c04GeneratedCache, c04RecursionAtoms()...)
 		seen := map[string]bool{}
 		for _, a := range c04GeneratedCache {
 			if seen[a.Name] {
